@@ -68,6 +68,10 @@ def check(ctx: Ctx) -> None:
     # true duplicate of the same path
     from .c14 import r3 as c14_r3
     ctx.shared(c14_r3, "C14.R3", "C02.R14", "the snapshot's file list is complete: skips only for empty entries / true duplicates")
+    # the pointer may already name the new snapshot when a commit fails ambiguously: a deleting rollback then leaves readers a
+    # current snapshot whose files are gone
+    from .c04 import r3 as c04_r3_
+    ctx.shared(c04_r3_, "C04.R3", "C02.R15", "a snapshot the pointer may name keeps its files: readers never meet a half-deleted current snapshot")
 
 
 def r6(ctx: Ctx) -> None:
